@@ -21,7 +21,7 @@ from .C10 import bridge, cps, text_rows, SCase
 ROOT = os.path.dirname(os.path.dirname(os.path.dirname(os.path.abspath(__file__))))
 ASSUMPTIONS = [
     "schema reading: Draft 2020-12 + OpenAPI nullable; 'integer' = Python int, 'number' = Python float, bool is neither; format is annotation only; patterns are unanchored searches with ECMA-262 `$` (end of input) and `.` (no line terminator)",
-    "the theorem covers the non-recursive fragment without unions, not-blank, user regexes and uniqueness (Proofs/SatP.v frag); those four are refuted in Coq and recorded as known findings; named recursive schemas, unions of disjoint variants and the rest of the fragment are tied by three-way differential execution",
+    "the theorem covers the non-recursive fragment (Proofs/SatP.v frag) incl. unions whose variants accept pairwise different JSON kinds; overlapping unions, not-blank, user regexes and uniqueness are refuted in Coq and recorded as known findings; named recursive schemas and the rest are tied by three-way differential execution",
     "regex search on literal prefix / suffix patterns is the section hypothesis search_prefix / search_suffix (validated on every case against Python's re)",
     "a disagreement is attributed to a known finding only if the implementation agrees with the schema under exactly one relaxed reading (oneOf as anyOf; dot-all not-blank pattern; user regex anchored at the start; uniqueness of (type, value) pairs as UniqueItems computes it)",
 ]
@@ -123,7 +123,7 @@ def frag(rng: random.Random, depth: int, lazy_ok: bool, guarded: bool = False):
         return ("DictAnyV", ks, None, None, rng.random() < 0.5)
     if r < 0.68:
         return G.gen_classv(rng, sub, lambda: None, lambda has: None,
-                            cid=rng.choice([G.C_DATA, G.C_NAMED, G.C_TYPED, G.C_TYPED2, G.C_BASE2, G.C_TYPED_ALLREQ, G.C_FACTORY]))[:7] + (None,)
+                            cid=rng.choice([G.C_DATA, G.C_NAMED, G.C_NAMED2, G.C_TYPED, G.C_TYPED2, G.C_BASE2, G.C_TYPED_ALLREQ, G.C_FACTORY]))[:7] + (None,)
     if r < 0.80:
         return ("UnionV", [sub_(guarded) for _ in range(rng.choice([1, 2, 2, 3]))])
     if r < 0.90:
@@ -150,7 +150,9 @@ def candidates(v) -> list:
         elif c in ("PMinLength", "PMaxLength", "PExactLength"):
             out += [S("a" * p[1]), S("ab" * p[1])]
         elif c in ("PMin", "PMax") and p[1][0] == "VInt":
-            out += [I(p[1][1]), I(p[1][1] + 1), I(p[1][1] - 1), F(p[1][1] < 0, abs(p[1][1]), 0)]
+            n_ = p[1][1]
+            out += [I(n_), I(n_ + 1), I(n_ - 1), F(n_ < 0, abs(n_), 0),
+                    F(2 * n_ + 1 < 0, abs(2 * n_ + 1), -1), F(2 * n_ - 1 < 0, abs(2 * n_ - 1), -1)]   # n + 0.5, n - 0.5 (m * 2^e)
         elif c in ("PMin", "PMax"):
             out.append(p[1])
         elif c == "PRegex":
@@ -495,8 +497,69 @@ def sharing_cases(rng: random.Random) -> List[JCase]:
     return out
 
 
+def unique_cases(rng: random.Random) -> List[JCase]:
+    """uniqueItems over arrays of objects / arrays: two members that are equal although they were written
+    differently (keys in another order) are duplicates for validator and schema alike."""
+    out: List[JCase] = []
+    d1 = [P(S("x"), I(1)), P(S("y"), I(2))]
+    d2 = [P(S("x"), I(1)), P(S("y"), I(3))]
+    deep = [P(S("x"), ("VDict", d1)), P(S("y"), ("VList", [I(1)]))]
+    deep_p = [P(S("y"), ("VList", [I(1)])), P(S("x"), ("VDict", list(reversed(d1))))]
+    items = [("IsDictV",), ("MapV", ("Scalar", ("KStr",), None, [], [], []), ("Scalar", ("KInt",), None, [], [], []), [], [], None)]
+    xs = [[("VDict", d1), ("VDict", list(reversed(d1)))], [("VDict", d1), ("VDict", d1)], [("VDict", d1), ("VDict", d2)],
+          [("VDict", d1), ("VDict", d2), ("VDict", list(reversed(d2)))], [("VDict", [])], []]
+    for it in items:
+        for x in xs:
+            c = JCase(("ListV", it, [("PUniqueItems",)], [], None), ("VList", x), None, "unique")
+            out.append(c)
+    for x in ([("VDict", deep), ("VDict", deep_p)], [("VDict", deep), ("VDict", deep)], [("VDict", deep), ("VDict", d1)]):
+        out.append(JCase(("ListV", ("IsDictV",), [("PUniqueItems",)], [], None), ("VList", x), None, "unique"))
+    INTL = ("ListV", ("Scalar", ("KInt",), None, [], [], []), [], [], None)
+    for x in ([("VList", [I(1), I(2)]), ("VList", [I(1), I(2)])], [("VList", [I(1), I(2)]), ("VList", [I(2), I(1)])], [("VList", []), ("VList", [])]):
+        out.append(JCase(("ListV", INTL, [("PUniqueItems",)], [], None), ("VList", x), None, "unique"))
+    return out
+
+
+def record_null_cases(rng: random.Random) -> List[JCase]:
+    """Record-shaped validators of every kind: a member that is present with the value null is present;
+    an unknown member is unknown whatever other records declare; uniqueness looks at the items as given."""
+    out: List[JCase] = []
+    INTV = ("Scalar", ("KInt",), None, [], [], [])
+    STRV = ("Scalar", ("KStr",), None, [], [], [])
+    NULL = ("VNone",)
+    OPTI = ("OptionalV", ("NoneV", None), INTV)
+    typed = lambda cid, a, b, strict: ("ClassV", ("RkTyped",), N(cid), [P(S(n), P(v, r)) for (n, r), v in zip(G.CLASS_SCHEMAS[cid][1], (a, b))], None, None, strict, None)
+    data = lambda cid, a, b, strict: ("ClassV", (G.CLASS_SCHEMAS[cid][0],), N(cid), [P(S(n), P(v, r)) for (n, r), v in zip(G.CLASS_SCHEMAS[cid][1], (a, b))], None, None, strict, None)
+    shapes = []
+    for strict in (False, True):
+        shapes += [(typed(G.C_TYPED, OPTI, STRV, strict), ("k", "o")), (typed(G.C_TYPED, INTV, OPTI, strict), ("k", "o")),
+                   (typed(G.C_TYPED2, OPTI, INTV, strict), ("r", "n")), (typed(G.C_TYPED2, STRV, OPTI, strict), ("r", "n")),
+                   (data(G.C_DATA, OPTI, OPTI, strict), ("a", "b")), (data(G.C_NAMED, OPTI, STRV, strict), ("x", "y")),
+                   (("DictAnyV", [P(S("a"), OPTI), P(S("b"), ("KeyNotRequired", OPTI))], None, None, strict), ("a", "b")),
+                   (("RecordV", [P(S("a"), OPTI), P(S("b"), ("KeyNotRequired", INTV))], N(0), None, None, strict), ("a", "b"))]
+    for v, (k1, k2) in shapes:
+        for kv in ([P(S(k1), NULL)], [P(S(k1), NULL), P(S(k2), NULL)], [P(S(k2), NULL)], [P(S(k1), I(1)), P(S(k2), NULL)],
+                   [P(S(k1), I(1))], [P(S(k1), S("s")), P(S(k2), S("t"))], []):
+            out.append(JCase(v, ("VDict", kv), None, "record-null"))
+            out.append(JCase(("ListV", v, [], [], None), ("VList", [("VDict", kv)]), None, "record-null"))
+    # a strict record next to / around another record that declares other names
+    inner = ("DictAnyV", [P(S("city"), STRV), P(S("zip"), ("KeyNotRequired", INTV))], None, None, True)
+    outer = ("DictAnyV", [P(S("name"), STRV), P(S("addr"), inner)], None, None, True)
+    addr = ("VDict", [P(S("city"), S("x"))])
+    for kv in ([P(S("name"), S("n")), P(S("addr"), addr)], [P(S("name"), S("n")), P(S("addr"), addr), P(S("city"), S("y"))],
+               [P(S("name"), S("n")), P(S("addr"), addr), P(S("zip"), I(1))],
+               [P(S("name"), S("n")), P(S("addr"), ("VDict", [P(S("city"), S("x")), P(S("name"), S("z"))]))]):
+        out.append(JCase(outer, ("VDict", kv), None, "record-null"))
+    # unique items over records that drop unknown members: the items as given decide
+    loose = ("DictAnyV", [P(S("x"), INTV), P(S("y"), INTV)], None, None, False)
+    mk = lambda lab: ("VDict", [P(S("x"), I(1)), P(S("y"), I(2)), P(S("label"), S(lab))])
+    for xs in ([mk("a"), mk("b")], [mk("a"), mk("a")], [mk("a")]):
+        out.append(JCase(("ListV", loose, [("PUniqueItems",)], [], None), ("VList", xs), None, "record-null"))
+    return out
+
+
 def gen_cases(rng: random.Random, n: int) -> List[JCase]:
-    out: List[JCase] = sharing_cases(rng)
+    out: List[JCase] = sharing_cases(rng) + unique_cases(rng) + record_null_cases(rng)
     while len(out) < n:
         rec = rng.random() < 0.15
         del POOL[:]
